@@ -1358,3 +1358,154 @@ Proof.
   exists (Leaf (mkHdr 1 "x" 1) false (CInt (NI 0) (NI 10)) (VInt 50) (VInt 50)).
   split; [vm_compute; auto|]. vm_compute. intros [H _]. discriminate.
 Qed.
+
+(* ================================================================== identities are unique *)
+(* The theorems above name a parameter by its identity (creation stamp).  In
+   every reachable tree the identities are pairwise distinct, so that name
+   denotes one parameter. *)
+Close Scope string_scope.
+Open Scope list_scope.
+Definition ids (p : param) : list nat := map pid (nodes p).
+
+Lemma ids_map : forall h ch, ids (Map h ch) = h_id h :: flat_map ids ch.
+Proof.
+  intros. unfold ids. simpl. f_equal. rewrite flat_map_concat_map, concat_map, map_map, <- flat_map_concat_map. reflexivity.
+Qed.
+
+Lemma find_child_split : forall k c c' ch, find_child k ch = Some c ->
+  exists l1 l2, ch = l1 ++ c :: l2 /\ replace_child k c' ch = l1 ++ c' :: l2 /\ remove_child k ch = l1 ++ l2.
+Proof.
+  induction ch as [|x r IH]; simpl; intros H; [discriminate|].
+  destruct (String.eqb k (pkey x)).
+  - inversion H; subst. exists [], r. auto.
+  - destruct (IH H) as (l1 & l2 & -> & -> & ->). exists (x :: l1), l2. auto.
+Qed.
+
+Lemma modify_ids : forall extra segs f p p',
+  (forall x x', f x = Val x' -> Permutation (ids x') (extra ++ ids x)) ->
+  modify segs f p = Val p' -> Permutation (ids p') (extra ++ ids p).
+Proof.
+  intros extra. induction segs as [|k r IH]; simpl; intros f p p' Hf H; [apply Hf, H|].
+  destruct p as [|h ch]; [discriminate|].
+  destruct (find_child k ch) as [c|] eqn:Ec; [|discriminate].
+  destruct (modify r f c) as [c'|] eqn:Em; [|discriminate].
+  inversion H; subst. specialize (IH _ _ _ Hf Em).
+  destruct (find_child_split k c c' ch Ec) as (l1 & l2 & -> & -> & _).
+  rewrite !ids_map, !flat_map_app. simpl.
+  eapply perm_trans; [|apply Permutation_middle]. apply perm_skip.
+  eapply perm_trans; [apply Permutation_app_head, Permutation_app_tail, IH|].
+  rewrite <- !app_assoc.
+  eapply perm_trans; [apply Permutation_app_swap_app|]. apply Permutation_refl.
+Qed.
+
+Lemma set_value_ids : forall q v x x', set_value q v x = Val x' -> Permutation (ids x') ([] ++ ids x).
+Proof.
+  intros q v x x' H. apply set_value_val in H. destruct H as (h & ro & c & d & v0 & -> & -> & _). apply Permutation_refl.
+Qed.
+
+Lemma map_add_ids : forall n s x x', StronglySorted prio_le (match x with Map _ ch => ch | _ => [] end) ->
+  map_add (node_of n s) x = Val x' -> Permutation (ids x') ([n] ++ ids x).
+Proof.
+  intros n s x x' Hs H. destruct x as [|h ch]; simpl in H; [discriminate|].
+  destruct (has_key (pkey (node_of n s)) ch); [discriminate|]. inversion H; subst.
+  rewrite py_sorted_append by exact Hs. rewrite !ids_map. simpl.
+  eapply perm_trans; [apply perm_skip, (Permutation_flat_map ids (place_perm _ _))|].
+  simpl. unfold ids at 1. rewrite node_of_nodes. simpl. rewrite node_of_id. apply perm_swap.
+Qed.
+
+Lemma remove_at_ids : forall segs p p' x,
+  remove_at segs p = Val (p', x) -> Permutation (ids p) (ids x ++ ids p').
+Proof.
+  induction segs as [|k r IH]; intros p p' x H; simpl in H; [discriminate|].
+  destruct p as [|h ch]; [discriminate|].
+  destruct (find_child k ch) as [c|] eqn:Ec; [|discriminate].
+  destruct r as [|k2 r2].
+  - inversion H; subst.
+    destruct (find_child_split k x x ch Ec) as (l1 & l2 & -> & _ & ->).
+    rewrite !ids_map, !flat_map_app. simpl.
+    eapply perm_trans; [|apply Permutation_middle]. apply perm_skip.
+    apply Permutation_app_swap_app.
+  - destruct (remove_at (k2 :: r2) c) as [[c' y]|] eqn:Er; [|discriminate].
+    inversion H; subst. specialize (IH _ _ _ Er).
+    destruct (find_child_split k c c' ch Ec) as (l1 & l2 & -> & -> & _).
+    rewrite !ids_map, !flat_map_app. simpl.
+    eapply perm_trans; [|apply Permutation_middle]. apply perm_skip.
+    eapply perm_trans; [apply Permutation_app_head, Permutation_app_tail, IH|].
+    rewrite <- !app_assoc.
+    eapply perm_trans; [apply Permutation_app_swap_app|]. apply Permutation_refl.
+Qed.
+
+Lemma wf_ids_below : forall n p, wf n p -> Forall (fun i => (i < n)%nat) (ids p).
+Proof.
+  intros n p H. unfold ids. rewrite Forall_map. apply Forall_forall. intros x Hx.
+  apply wf_id. eapply wf_nodes; eauto.
+Qed.
+
+Lemma node_children_sorted : forall n root segs h ch,
+  wf n root -> node_at root segs = Some (Map h ch) -> StronglySorted prio_le ch.
+Proof.
+  intros n root segs h ch Hwf Hn. apply paths_node_at in Hn.
+  assert (Hin : In (Map h ch) (nodes root)).
+  { clear Hwf. revert Hn. generalize (Map h ch) as x. intros x. revert segs.
+    induction root as [h0 ro c d v|h0 ch0 IH] using param_ind'; intros segs Hn.
+    - simpl in Hn. destruct Hn as [Hn|[]]. inversion Hn; subst. simpl. auto.
+    - apply paths_map_inv in Hn. destruct Hn as [[_ ->]|(c & l' & Hc & Hn & _)]; [apply nodes_self|].
+      rewrite Forall_forall in IH. eapply nodes_child; eauto. }
+  pose proof (wf_nodes _ _ Hwf _ Hin) as Hw. inversion Hw as [|? ? _ _ Hok]; subst.
+  apply sorted_hord_prio. apply Hok.
+Qed.
+
+Lemma nodup_app_r : forall (A : Type) (a b : list A), NoDup (a ++ b) -> NoDup b.
+Proof. induction a as [|x a IH]; simpl; intros b H; [exact H | inversion H; auto]. Qed.
+
+Lemma step_root_ids : forall n root o,
+  wf n root -> NoDup (ids root) -> NoDup (ids (fst (step_root repaired n root o))).
+Proof.
+  intros n root o Hwf Hnd.
+  assert (Hset : forall path v r', modify (segments path) (set_value repaired v) root = Val r' -> NoDup (ids r')).
+  { intros path v r' E. eapply modify_ids in E; [|intros x x'; apply set_value_ids].
+    eapply Permutation_NoDup; [apply Permutation_sym, E | exact Hnd]. }
+  assert (Hadd : forall pp s r', modify (psegs pp) (map_add (node_of n s)) root = Val r' -> NoDup (ids r')).
+  { intros pp s r' E.
+    assert (E' := E). apply modify_inv in E'; [|intros x x' Hx; destruct x; simpl in Hx; [discriminate|];
+                                                 destruct (has_key _ _); [discriminate|]; inversion Hx; reflexivity].
+    destruct E' as (_ & x & x' & Hn & Hx & _).
+    assert (Hsorted : StronglySorted prio_le (match x with Map _ ch => ch | _ => [] end)).
+    { destruct x as [|h ch]; [constructor|]. eapply node_children_sorted; eauto. }
+    clear Hx.
+    assert (Hperm : Permutation (ids r') ([n] ++ ids root)).
+    { eapply modify_ids; [|exact E]. intros y y' Hy.
+      destruct y as [|hy chy]; simpl in Hy; [discriminate|].
+      destruct (has_key (pkey (node_of n s)) chy) eqn:Eh; [discriminate|]. inversion Hy; subst.
+      rewrite !ids_map. simpl.
+      assert (Hp : Permutation (py_sorted (chy ++ [node_of n s])) (node_of n s :: chy)).
+      { eapply perm_trans; [apply (proj1 (py_sorted_is_stable_sort _))|]. apply Permutation_sym, Permutation_cons_append. }
+      eapply perm_trans; [apply perm_skip, (Permutation_flat_map ids Hp)|].
+      simpl. unfold ids at 1. rewrite node_of_nodes. simpl. rewrite node_of_id. apply perm_swap. }
+    eapply Permutation_NoDup; [apply Permutation_sym, Hperm|]. simpl. constructor; [|exact Hnd].
+    intro Hin. pose proof (wf_ids_below _ _ Hwf) as Hb. rewrite Forall_forall in Hb. specialize (Hb _ Hin). lia. }
+  destruct o as [path v|pp s|pp s|path|path|path v|path|path]; simpl.
+  - destruct (modify (segments path) (set_value repaired v) root) as [r'|e] eqn:E; simpl; eauto.
+  - destruct (node_at root (psegs pp)) as [par|]; simpl; auto.
+    destruct (ctor_checks repaired s (Some par)); simpl; auto.
+    destruct (modify (psegs pp) (map_add (node_of n s)) root) as [r'|e] eqn:E; simpl; eauto.
+  - destruct (node_at root (psegs pp)) as [par|]; simpl; auto.
+    destruct (ctor_checks repaired s None); simpl; auto.
+    destruct (modify (psegs pp) (map_add (node_of n s)) root) as [r'|e] eqn:E; simpl; eauto.
+  - destruct (remove_at (segments path) root) as [[r' x]|e] eqn:E; simpl; auto.
+    apply remove_at_ids in E. eapply Permutation_NoDup in E; [|exact Hnd].
+    apply nodup_app_r in E. exact E.
+  - destruct (get root path) as [p|e]; simpl; auto.
+  - destruct (modify (segments path) (set_value repaired v) root) as [r'|e] eqn:E; simpl; eauto.
+  - destruct (get root path) as [[? ? ? ? ?|? ?]|e]; simpl; auto.
+  - destruct (get root path) as [[? ? ? ? ?|? ?]|e]; simpl; auto.
+Qed.
+
+Theorem ids_unique : forall ops, NoDup (map pid (nodes (st_root (run repaired init ops)))).
+Proof.
+  intros ops. change (NoDup (ids (st_root (run repaired init ops)))).
+  assert (G : forall ops st, wf_state st -> NoDup (ids (st_root st)) -> NoDup (ids (st_root (run repaired st ops)))).
+  { induction ops0 as [|o r IH]; simpl; intros st Hwf Hnd; [exact Hnd|].
+    apply IH; [apply step_wf, Hwf|]. rewrite step_root_eq. apply step_root_ids; assumption. }
+  apply G; [apply init_wf|]. unfold ids, init. simpl. repeat constructor. simpl. tauto.
+Qed.
